@@ -1,0 +1,15 @@
+//go:build verif
+
+package ech
+
+import "time"
+
+// SetTimeNowForVerif replaces the clock used by the resolver cache. It exists
+// only in builds with the "verif" tag and is used by the verification harness
+// to drive cache expiry in virtual time. A nil argument restores time.Now.
+func SetTimeNowForVerif(f func() time.Time) {
+	if f == nil {
+		f = time.Now
+	}
+	timeNow = f
+}
